@@ -429,6 +429,7 @@ func init() {
 	addPlan("C02", planEntry{Engine: "A", Scenario: "grown-cluster", Quick: 6, Thorough: 60})
 	addPlan("C06", planEntry{Engine: "A", Scenario: "grown-cluster", Quick: 4, Thorough: 40})
 	addPlan("C08", planEntry{Engine: "A", Scenario: "grown-cluster", Quick: 4, Thorough: 40})
+	addPlan("C08", planEntry{Engine: "A", Scenario: "two-actions-one-request", Quick: 4, Thorough: 40})
 	// timers with the semantics of a main module below go 1.23 (see worker main)
 	addPlan("C15", planEntry{Engine: "A", Scenario: "general", Params: "oldtimers=1", Quick: 6, Thorough: 60})
 	addPlan("C15", planEntry{Engine: "A", Scenario: "election", Params: "oldtimers=1", Quick: 6, Thorough: 60})
